@@ -4,6 +4,8 @@ import (
 	"fmt"
 	"math"
 	"math/big"
+	"os"
+	"strings"
 
 	"github.com/tuneinsight/lattigo/v6/circuits/ckks/bootstrapping"
 	"github.com/tuneinsight/lattigo/v6/core/rlwe"
@@ -122,9 +124,75 @@ func build(c *engine.Chooser, tag string, resLit ckks.ParametersLiteral, btpLit 
 	return s, ""
 }
 
+// judgeIterated: what the iterated high-precision mode *announces*, independently of the calibration.
+//
+// IterationsParameters.BootstrappingPrecision[i] is documented as "the expected precision of each previous iteration":
+// entry i states what bootstrap number i contributes, so after the last iteration the message is known to
+// sum(entries) bits plus whatever the final bootstrap contributes. When every entry is truthful (not larger than the
+// precision one bootstrap of this very configuration reaches: looked up in the calibration entry of the same
+// configuration without iterations), the final bootstrap contributes at least max(entries):
+//
+//	announced >= sum(entries) + max(entries), capped by what the input ciphertext carries (log2(scale) - LogN - 2),
+//
+// and the oracle demands announced - marginBits. Applied with a reserved prime only: without one the documentation
+// itself says the last iteration may gain less.
+func judgeIterated(c *engine.Chooser, k cfg, key string, bits float64) {
+	prec, reserved := k.iterations()
+	if prec == nil || reserved == 0 || os.Getenv("VERIF_C18_CALIBRATE") != "" {
+		return
+	}
+	sum, max := 0.0, 0.0
+	for _, p := range prec {
+		sum += p
+		if p > max {
+			max = p
+		}
+	}
+	single := k
+	single.Iter = 0
+	e, ok := calibration["func/"+single.key()]
+	if !ok || e.Min < max+1 {
+		// the entries overstate what one bootstrap of this configuration delivers (or it is unknown): nothing is announced
+		c.Cover("announced", "precondition-not-met")
+		return
+	}
+	_, logScale := k.residualChain()
+	announced := sum + max
+	if lim := float64(logScale - k.residualLogN() - 2); announced > lim {
+		announced = lim
+	}
+	c.Cover("announced", fmt.Sprintf("iterations=%d", len(prec)))
+	if bits < announced-marginBits {
+		c.Fail("C18/func/iterated-precision-below-announced",
+			"%s: BootstrappingPrecision=%v with a %d-bit reserved prime: worst-slot precision %.2f bits < %.0f = announced %.0f (sum of the entries + one bootstrap of >= %.0f bits; a single bootstrap of this configuration is calibrated at %.1f) - %.0f",
+			key, prec, reserved, bits, announced-marginBits, announced, max, e.Min, marginBits)
+	}
+}
+
+// onlyKeys restricts a recording run to the configurations whose key contains one of the comma-separated substrings
+// in VERIF_C18_ONLYKEY (used to calibrate added configurations without re-measuring the others).
+func recordingSkips(key string) bool {
+	if os.Getenv("VERIF_C18_CALIBRATE") == "" {
+		return false
+	}
+	f := os.Getenv("VERIF_C18_ONLYKEY")
+	if f == "" {
+		return false
+	}
+	for _, sub := range strings.Split(f, ",") {
+		if strings.Contains(key, sub) {
+			return false
+		}
+	}
+	return true
+}
+
 // runFunctional is one leaf of item 2: one configuration, one batch of ciphertexts.
 func runFunctional(c *engine.Chooser, k cfg) {
 	key := k.key()
+	if recordingSkips(key) {
+		return
+	}
 	uni.Seed(c, "func", key)
 	resLit, btpLit := k.literals()
 	s, rejected := build(c, key, resLit, btpLit, nil)
@@ -141,13 +209,7 @@ func runFunctional(c *engine.Chooser, k cfg) {
 	res := s.res
 	realOnly := res.RingType() == ring.ConjugateInvariant
 	ctLog := k.ctLogSlots()
-	level := k.InLevel
-	if k.Iter != 0 {
-		level = res.MaxLevel()
-	}
-	if level > res.MaxLevel() {
-		level = res.MaxLevel()
-	}
+	level := k.inputLevel()
 	// Input classes that hit a defect recorded in FINDINGS.md get that defect's single signature for whatever
 	// goes wrong after the bootstrap (error, level, scale, precision): one defect, one sig; every other leaf keeps the
 	// specific sigs. Key-level oracles above are not affected.
@@ -175,6 +237,11 @@ func runFunctional(c *engine.Chooser, k cfg) {
 		amp = 1.0 / 256
 	}
 	ecd := ckks.NewEncoder(res)
+	if k.Iter != 0 {
+		// the iterated mode announces more than 53 bits: encode, decode and compare in arbitrary precision, well
+		// above the residual scale 2^80 (the default encoder precision equals log2(scale))
+		ecd = ckks.NewEncoder(res, 160)
+	}
 	enc := rlwe.NewEncryptor(res, s.sk)
 	dec := rlwe.NewDecryptor(res, s.sk)
 	n := k.Batch + 1
@@ -192,6 +259,15 @@ func runFunctional(c *engine.Chooser, k cfg) {
 			panic(fmt.Sprintf("harness: encrypt: %v", err))
 		}
 		cts[j] = *ct
+		if k.Iter != 0 {
+			// reference of the high-precision mode: the message the ciphertext actually carries (encoding and
+			// encryption noise of ~2^-72 included), as bootstrapping is announced to preserve *that*
+			enc0 := make([]*bignum.Complex, 1<<ctLog)
+			if err := ecd.Decode(dec.DecryptNew(ct), enc0); err != nil {
+				panic(fmt.Sprintf("harness: decode: %v", err))
+			}
+			want[j] = enc0
+		}
 	}
 
 	ev := s.eval
@@ -263,6 +339,9 @@ func runFunctional(c *engine.Chooser, k cfg) {
 		}
 	}
 	judgePrecision(c, "func", key, worst, known)
+	if known == "" {
+		judgeIterated(c, k, key, worst)
+	}
 	c.Cover("logN", fmt.Sprint(k.LogN))
 	c.Cover("ctLogSlots", slotBucket(ctLog, k.residualLogN(), realOnly))
 	c.Outcome(key, int(worst))
